@@ -17,6 +17,8 @@ CHECKS = {
     "C06": parts.c06, "C07": parts.c07, "C08": parts.c08, "C09": parts.c09, "C10": parts.c10,
     "C11": parts.c11, "C12": parts.c12, "C13": parts.c13, "C14": parts.c14, "C15": parts.c15,
     "C16": parts.c16, "C17": parts.c17, "C18": parts.c18, "C19": parts.c19, "C20": parts.c20,
+    # beyond the listed properties (not registered in MANIFEST.json; see DESIGN.md 0.6)
+    "X01": parts.x01, "X02": parts.x02,
 }
 
 
